@@ -160,48 +160,34 @@ def _r2(ck: Checker, prog: Program):
         elif want is not None:
             ck.violation("C01.R2", "processing.COMBINE_HORIZONTAL_REGISTER", f"'{k}'",
                          f"method name '{k}' is bound to `{unparse(v)}` but names the {want.replace('_', ' ')}", loc=f"hvsrpy/processing.py:{v.lineno}")
-    treg = prog.registry("processing", "TRADITIONAL_PROCESSING_REGISTER")
+    # the two dispatchers, by value: for every method name the function that receives (records, settings)
+    from .common import dispatch_table
+    R_, S_ = sp.Symbol("records", real=True), sp.Symbol("settings", real=True)
     want_t = {k: "traditional_hvsr_processing" for k in ALIASES}
     want_t.update(TIME_DOMAIN)
-    for k, fn in want_t.items():
-        v = treg.get(k)
-        if isinstance(v, ast.Name) and v.id == fn:
-            ck.ok("C01.R2", "processing.TRADITIONAL_PROCESSING_REGISTER", f"'{k}' -> {fn}")
-        else:
-            ck.violation("C01.R2", "processing.TRADITIONAL_PROCESSING_REGISTER", f"'{k}'",
-                         f"'{k}' is processed by `{unparse(v) if v is not None else None}`, expected {fn}", loc="hvsrpy/processing.py")
-    for k in set(treg) - set(want_t):
-        ck.violation("C01.R2", "processing.TRADITIONAL_PROCESSING_REGISTER", f"'{k}'", "unknown method key", loc="hvsrpy/processing.py")
-    preg = prog.registry("processing", "PROCESSING_METHODS")
     want_p = {"traditional": "traditional_hvsr_processing_base", "azimuthal": "azimuthal_hvsr_processing",
               "diffuse_field": "diffuse_field_hvsr_processing", "psd": "rpsd"}
-    for k, fn in want_p.items():
-        v = preg.get(k)
-        if isinstance(v, ast.Name) and v.id == fn:
-            ck.ok("C01.R2", "processing.PROCESSING_METHODS", f"'{k}' -> {fn}")
+    for fq, label, subject, want in (("processing.traditional_hvsr_processing_base", "processing.TRADITIONAL_PROCESSING_REGISTER", "method_to_combine_horizontals", want_t),
+                                     ("processing.process", "processing.PROCESSING_METHODS", "processing_method", want_p)):
+        tab = dispatch_table(prog, fq, subject, sorted(want))
+        for k, fn in sorted(want.items()):
+            got, args = tab[k]
+            copied = len(args) == 2 and getattr(getattr(args[1], "func", None), "__name__", "") == "deepcopy" and args[1].args and args[1].args[-1] == S_
+            if got == fn and len(args) == 2 and args[0] == R_ and (args[1] == S_ or copied):
+                ck.ok("C01.R2", label, f"'{k}' -> {fn}")
+            elif got == fn:
+                ck.violation("C01.R2", fq, "dispatch", f"for '{k}' {fn} receives {args} instead of (records, settings)", loc=prog.func(fq).loc())
+            else:
+                ck.violation("C01.R2", label, f"'{k}'", f"'{k}' is processed by `{got}`, expected {fn}", loc="hvsrpy/processing.py")
+        if tab["<an unknown name>"][0] is not None:
+            ck.violation("C01.R2", label, "unknown method key", f"an unknown method name is processed by {tab['<an unknown name>'][0]}", loc="hvsrpy/processing.py")
         else:
-            ck.violation("C01.R2", "processing.PROCESSING_METHODS", f"'{k}'", f"'{k}' -> `{unparse(v) if v is not None else None}`, expected {fn}", loc="hvsrpy/processing.py")
-    # dispatchers
-    for fq, regname, key in (("processing.process", "PROCESSING_METHODS", "settings.processing_method"),
-                             ("processing.traditional_hvsr_processing_base", "TRADITIONAL_PROCESSING_REGISTER", "settings.method_to_combine_horizontals")):
-        f = prog.func(fq)
-        rets = [r for r in own_nodes(f.node) if isinstance(r, ast.Return)]
-        T = Translator()
-        forward_substitute([st for st in f.node.body if isinstance(st, ast.Assign)], T)
-        src = unparse(rets[0].value) if len(rets) == 1 else ""
-        ok1 = src == f"{regname}[{key}](records, settings)"
-        ok2 = False
-        if len(rets) == 1 and isinstance(rets[0].value, ast.Call) and isinstance(rets[0].value.func, ast.Name):
-            d = [st for st in f.node.body if isinstance(st, ast.Assign) and unparse(st.targets[0]) == rets[0].value.func.id]
-            ok2 = len(d) == 1 and unparse(d[0].value) == f"{regname}[{key}]" and [unparse(x) for x in rets[0].value.args] == ["records", "settings"]
-        if ok1 or ok2:
-            ck.ok("C01.R2", fq, f"dispatch {regname}[{key}](records, settings)")
-        else:
-            ck.violation("C01.R2", fq, "dispatch", f"does not dispatch as {regname}[{key}](records, settings)", loc=f.loc())
+            ck.ok("C01.R2", fq, f"dispatch on settings.{subject}; unknown names are refused")
 
 
 OPERATOR_PARAMS = ["frequencies", "spectrum", "fcs", "bandwidth"]
 FCS_SRC = "np.array(settings.smoothing['center_frequencies_in_hz'])"
+
 
 
 def _parse(src: str) -> ast.AST:
